@@ -224,6 +224,22 @@ def r18_1_guarded_divisions(ctx, rule: str = 'R18.1', rule_lit: str = 'R05.4', m
             # skip divisions inside nested function definitions (analysed with their own roles)
             cls = classify_expr(wm, f, div)
             dtxt = ast.unparse(div)
+            if cls not in ('multiplicity', 'spike-count') and cls not in POSITIVE_REASONS and cls != 'const' \
+                    and isinstance(div, ast.Name):
+                # a parameter of a helper: what the callers pass for it decides (a count handed to a helper is still a count;
+                # `try: a/b except ZeroDivisionError` is no guard - numpy scalars divide to nan/inf without raising)
+                ps_ = [a_.arg for a_ in f.node.args.args]
+                if div.id in ps_ and not any(isinstance(x, ast.Name) and x.id == div.id and isinstance(x.ctx, ast.Store)
+                                               for x in ast.walk(f.node)):
+                    k_ = ps_.index(div.id)
+                    for g in wm.funcs:
+                        for c_ in ast.walk(g.node):
+                            if isinstance(c_, ast.Call) and any(t_.qual == f.qual for t_, _ in wm.callees(g, c_)):
+                                arg = c_.args[k_] if k_ < len(c_.args) else next((kw.value for kw in c_.keywords if kw.arg == div.id), None)
+                                if arg is not None:
+                                    c2 = classify_expr(wm, g, arg)
+                                    if c2 in ('multiplicity', 'spike-count'):
+                                        cls = c2
             if cls in ('multiplicity', 'spike-count'):
                 t = (f"{f.name}: division by the {'summed multiplicity' if cls == 'multiplicity' else 'spike count'} "
                      f"`{dtxt}` is dominated by a zero test on that same variable")
